@@ -240,6 +240,14 @@ impl<L: Language> NthChild<L> {
       .iter()
       .position(|child| child.node_id() == node.node_id())
   }
+  pub(crate) fn check_cyclic(&self, id: &str) -> bool {
+    if let Some(rule) = &self.of_rule {
+      rule.check_cyclic(id)
+    } else {
+      false
+    }
+  }
+
   pub fn defined_vars(&self) -> HashSet<&str> {
     if let Some(rule) = &self.of_rule {
       rule.defined_vars()
